@@ -133,7 +133,7 @@ theorem refused_changes_nothing (cfg : DispCfg) (mr : Nat) (h : Int) (s : DispSt
     simp only [deliver] at hr ⊢
     by_cases hv : m.validateBasic cfg = true
     · simp only [hv, Bool.not_true, Bool.false_eq_true, if_false] at hr ⊢
-      cases hc : createClaim s m with
+      cases hc : createClaim cfg s m with
       | none => rfl
       | some s' => simp [hc] at hr
     · simp [hv]
@@ -266,21 +266,22 @@ theorem claim_deleted_on_pay (cfg : DispCfg) (h : Int) (s s' : DispState) (l : L
     (os : List (Key × Rec × Outcome)) (hi : Inv cfg.module s l)
     (hr : runDistribution cfg h s m = .ok (s', os)) :
     ∀ x ∈ os, x.2.2 = .paid → x.2.1.typ.claimable = true →
-      sGet s'.claims (claimKey x.2.1.rcpt x.2.1.typ) = none := by
+      sGet s'.claims (claimKey (cfg.canon x.2.1.rcpt) x.2.1.typ) = none := by
   obtain ⟨s'', os', hr', _, _, hf⟩ := run_spec (h := h) hi m
   rw [hr] at hr'; cases hr'
   exact hf.claimsDel
 
 /-! ## claims -/
 
-/-- a user can hold at most one claim per claim type: a second claim for the same (user, type) is
-    refused, an accepted one was new and touches only its own key -/
-theorem one_claim_per_type (s : DispState) (m : MsgClaim) :
-    (sHas s.claims (claimKey m.user m.typ) = true → createClaim s m = none) ∧
-    (∀ s', createClaim s m = some s' →
-        sGet s.claims (claimKey m.user m.typ) = none ∧
-        sGet s'.claims (claimKey m.user m.typ) = some () ∧
-        (∀ k, k ≠ claimKey m.user m.typ → sGet s'.claims k = sGet s.claims k) ∧
+/-- a user can hold at most one claim per claim type — per ACCOUNT (the claim key is built from the
+    decoded address, fix F28: both spellings of an address name one claim): a second claim for the
+    same (account, type) is refused, an accepted one was new and touches only its own key -/
+theorem one_claim_per_type (cfg : DispCfg) (s : DispState) (m : MsgClaim) :
+    (sHas s.claims (claimKey (cfg.canon m.user) m.typ) = true → createClaim cfg s m = none) ∧
+    (∀ s', createClaim cfg s m = some s' →
+        sGet s.claims (claimKey (cfg.canon m.user) m.typ) = none ∧
+        sGet s'.claims (claimKey (cfg.canon m.user) m.typ) = some () ∧
+        (∀ k, k ≠ claimKey (cfg.canon m.user) m.typ → sGet s'.claims k = sGet s.claims k) ∧
         s'.pending = s.pending ∧ s'.completed = s.completed ∧ s'.failed = s.failed ∧ s'.bank = s.bank) := by
   constructor
   · intro hh; unfold createClaim; simp [hh]
